@@ -3,9 +3,13 @@
 package system
 
 import (
+	"bytes"
 	"math/big"
+	"reflect"
 
 	"github.com/aergoio/aergo/v2/state/statedb"
+	"github.com/aergoio/aergo/v2/types"
+	"github.com/aergoio/aergo/v2/types/dbkey"
 )
 
 // VerifResetVPR drops the in-memory voting power ranking (a node without DPoS never builds one).
@@ -15,7 +19,10 @@ func VerifResetVPR() { votingPowerRank = nil }
 func VerifHasVPR() bool { return votingPowerRank != nil }
 
 // VerifVPREqualsState compares the in-memory voting-power ranking with one rebuilt from the
-// given system-contract state. Returns (equal, memTotal, stateTotal).
+// given system-contract state: total power, every voter's power and address, the ranking order,
+// the bucket contents in order, and the reward winner picked for a set of seeds. The `lowest`
+// cursor is not compared: among voters with equal power it depends on arrival order and is not
+// read by anything. Returns (equal, memTotal, stateTotal).
 func VerifVPREqualsState(scs *statedb.ContractState) (bool, *big.Int, *big.Int, error) {
 	fresh, err := loadVpr(scs)
 	if err != nil {
@@ -24,7 +31,42 @@ func VerifVPREqualsState(scs *statedb.ContractState) (bool, *big.Int, *big.Int, 
 	if votingPowerRank == nil {
 		return fresh.getTotalPower().Sign() == 0, new(big.Int), fresh.getTotalPower(), nil
 	}
-	return votingPowerRank.equals(fresh), votingPowerRank.getTotalPower(), fresh.getTotalPower(), nil
+	mem := votingPowerRank
+	eq := mem.getTotalPower().Cmp(fresh.getTotalPower()) == 0 && mem.voters.equals(fresh.voters)
+	if eq {
+		for i := uint8(0); i < vprBucketsMax; i++ {
+			a, b := mem.store.buckets[i], fresh.store.buckets[i]
+			la, lb := 0, 0
+			if a != nil {
+				la = a.Len()
+			}
+			if b != nil {
+				lb = b.Len()
+			}
+			if la != lb {
+				eq = false
+				break
+			}
+			if la == 0 {
+				continue
+			}
+			for x, y := a.Front(), b.Front(); x != nil; x, y = x.Next(), y.Next() {
+				if !reflect.DeepEqual(toVotingPower(x), toVotingPower(y)) {
+					eq = false
+				}
+			}
+		}
+	}
+	if eq {
+		for seed := int64(0); seed < 24; seed++ {
+			w1, e1 := mem.pickVotingRewardWinner(seed)
+			w2, e2 := fresh.pickVotingRewardWinner(seed)
+			if (e1 == nil) != (e2 == nil) || !bytes.Equal(w1, w2) {
+				eq = false
+			}
+		}
+	}
+	return eq, mem.getTotalPower(), fresh.getTotalPower(), nil
 }
 
 // VerifVPRPending reports the number of not yet applied voting power changes.
@@ -37,3 +79,61 @@ func VerifVPRPending() int {
 
 // VerifResetDefaultBpCount lets the next InitSystemParams set the default BP count again.
 func VerifResetDefaultBpCount() { delete(DefaultParams, bpCount.ID()) }
+
+// VerifVoteList returns the stored ranking (all entries) of the issue with the given id
+// ("voteBP", "BPCOUNT", ...).
+func VerifVoteList(scs *statedb.ContractState, id string) (*types.VoteList, error) {
+	return getVoteResult(scs, VerifIssueKey(id), 1<<30)
+}
+
+// VerifIssueKey maps an issue id to its storage key.
+func VerifIssueKey(id string) []byte {
+	if id == types.OpvoteBP.ID() {
+		return defaultVoteKey
+	}
+	return GenProposalKey(id)
+}
+
+// VerifIssueIDs lists all issue ids of the voting catalog.
+func VerifIssueIDs() []string {
+	var out []string
+	for _, i := range GetVotingCatalog() {
+		out = append(out, i.ID())
+	}
+	return out
+}
+
+// VerifVoteTotal returns the recorded total of a proposal-based issue.
+func VerifVoteTotal(scs *statedb.ContractState, id string) *big.Int {
+	data, _ := scs.GetData(dbkey.SystemVoteTotal(VerifIssueKey(id)))
+	return new(big.Int).SetBytes(data)
+}
+
+// VerifVPRDescribe renders the in-memory ranking and the one rebuilt from state.
+func VerifVPRDescribe(scs *statedb.ContractState) string {
+	fresh, _ := loadVpr(scs)
+	d := func(v *vpr) string {
+		if v == nil {
+			return "<nil>"
+		}
+		s := "total=" + v.getTotalPower().String() + " voters:"
+		for _, k := range v.voters.members.Keys() {
+			vp := k.(*votingPower)
+			s += " " + vp.getID().String()[:6] + "=" + vp.getPower().String() + "(addr " + types.EncodeAddress(vp.getAddr())[:8] + ")"
+		}
+		s += " | map:"
+		for id, vp := range v.voters.powers {
+			s += " " + id.String()[:6] + "=" + vp.getPower().String()
+		}
+		s += " | buckets:"
+		for i := uint8(0); i < vprBucketsMax; i++ {
+			if l := v.store.buckets[i]; l != nil && l.Len() > 0 {
+				for e := l.Front(); e != nil; e = e.Next() {
+					s += " [" + big.NewInt(int64(i)).String() + "]" + toVotingPower(e).getID().String()[:6] + "=" + toVotingPower(e).getPower().String()
+				}
+			}
+		}
+		return s
+	}
+	return "memory: " + d(votingPowerRank) + "\nstate:  " + d(fresh)
+}
